@@ -908,6 +908,18 @@ fn enum_make(tier: Tier, i: u64) -> Case {
     }
 }
 
+/// libFuzzer entry / from-bytes generator: bring a decoded case into the domain of `strategy`
+pub fn fuzz_domain(c: &mut Case) -> bool {
+    c.g.sanitize(1, 14, 40, None);
+    c.starts.truncate(3);
+    c.script.truncate(23);
+    c.moves.truncate(3);
+    true
+}
+pub fn bytes_strategy(_tier: Tier) -> BoxedStrategy<Case> {
+    decoded_strategy(fuzz_domain)
+}
+
 pub fn property() -> Property {
     Property {
         id: "C08",
@@ -917,6 +929,6 @@ pub fn property() -> Property {
             "DfsPostOrder::move_to is only exercised after the previous phase ran to exhaustion",
         ],
         both_profiles: false,
-        subs: vec![sub("traversal/walkers+dfsvisit", 3_000_000, 60_000_000, strategy, run), sub_enum("traversal/all-small-graphs", enum_count, enum_make, run)],
+        subs: vec![sub_fuzz("traversal/walkers+dfsvisit", 3_000_000, 60_000_000, strategy, run, fuzz_domain), sub("traversal/walkers+dfsvisit-from-bytes", 600_000, 10_000_000, bytes_strategy, run), sub_enum("traversal/all-small-graphs", enum_count, enum_make, run)],
     }
 }
